@@ -112,7 +112,7 @@ func checkC14(c *Check) {
 		if okCaps {
 			first := false
 			for _, cl := range p.callsIn(fn, descIs("newFourOctetASCap")) {
-				if instrDominates(cl.(ssa.Instruction), pre.(ssa.Instruction)) && cl.Common().Args[0] == ssa.Value(fn.Params[0]) {
+				if instrDominates(cl.(ssa.Instruction), pre.(ssa.Instruction)) && p.origin(cl.Common().Args[0]) == ssa.Value(fn.Params[0]) {
 					first = true
 				}
 			}
